@@ -172,6 +172,18 @@ def build():
     p.spec_funcs["lock_depth"] = lambda interp: interp.ctx.lock_depth.get("plock", 0)
     p.assume_note("monitor rule (meta-theorem): protected state satisfies LI in every interleaving because every critical section re-establishes it before releasing Parallel._lock")
 
+    # `_iterating` goes from True to False for good when a completion callback finds the input exhausted (dispatch_next, under the lock, which
+    # also clears _original_iterator).  A thread that sets it to True from what it READ of _original_iterator must read and write in one
+    # critical section, or the callback's final False can be overwritten and the retrieval loop never ends (reported by a seeding sub-agent
+    # with a forced interleaving).  Writing False is idempotent and needs no lock.
+    def iterating_write(interp, obj, attr, v):
+        if v is False:
+            return
+        interp.ctx.check("%s/guarded-by._lock._iterating-set-true" % interp.contract.qualname, interp.ctx.lock_depth.get("plock", 0) > 0,
+                         detail="_iterating may only become True inside the critical section in which _original_iterator was read")
+
+    p.write_hooks[("Parallel", "_iterating")] = iterating_write
+
     def held(interp, what):
         interp.ctx.check("%s/guarded-by._lock.%s" % (interp.contract.qualname, what), interp.ctx.lock_depth.get("plock", 0) > 0,
                          detail="%s only with Parallel._lock held" % what)
@@ -436,7 +448,7 @@ def build():
         return c
 
     p.add(with_summary(Contract(
-        PAR, "Parallel.dispatch_next", props=["C01", "C09", "C04"], ghost=dict(SLICE_TAKEN=INT, ABORT_SEEN=BOOL, DONE=BOOL),
+        PAR, "Parallel.dispatch_next", props=["C01", "C09", "C04"], ghost=dict(GHOST, SLICE_TAKEN=INT, ABORT_SEEN=BOOL), setup=setup,
         params=dict(self=parallel(_original_iterator=OpaqueOf("taskiter"))),
         requires=["implies(self._aborting, ABORT_SEEN)"],
         ensures={"uses_the_original_iterator": "n_events('dispatch_one_batch') <= 1 and implies(n_events('dispatch_one_batch') == 1, ev_named('dispatch_one_batch')[0][1] is old(self._original_iterator))",
@@ -455,7 +467,8 @@ def build():
         return Opaque("taskiter", None)
     p.add(with_summary(Contract(
         PAR, "Parallel._start", props=["C01", "C09", "C04"],
-        ghost=dict(SLICE_TAKEN=INT, ABORT_SEEN=BOOL, DONE=BOOL),
+        # (GHOST: the protected state behind Parallel._lock, needed for the critical section in which _iterating is set)
+        ghost=dict(GHOST, SLICE_TAKEN=INT, ABORT_SEEN=BOOL), setup=setup,
         params=dict(self=parallel(_original_iterator=Opt(OpaqueOf("taskiter"))), iterator=start_iterator, pre_dispatch=OneOf("all", INT)),
         requires=["SLICE_TAKEN == 0",
                   # established by Parallel.__call__ (part 4): 'all' hands the input itself over and disables callbacks' dispatching
